@@ -149,6 +149,9 @@ static std::string step(const std::string& line) {
     else if (w[1] == "addi8") e = x->add(x86::dword_ptr(L, d), 0x12);
     else if (w[1] == "movi32") e = x->mov(x86::dword_ptr(L, d), 0x11223344);
     else if (w[1] == "cmpi16") e = x->cmp(x86::word_ptr(L, d), 0x1234);
+    else if (w[1] == "ldeax") e = x->mov(x86::eax, x86::dword_ptr(L, d));
+    else if (w[1] == "steax") e = x->mov(x86::dword_ptr(L, d), x86::eax);
+    else if (w[1] == "ldrax") e = x->mov(x->zax(), x86::ptr(L, d));
     else return "bad-op";
     return answer(e);
   }
@@ -169,6 +172,9 @@ static std::string step(const std::string& line) {
     else if (w[1] == "addi8") e = x->add(M(4), 0x12);
     else if (w[1] == "movi32") e = x->mov(M(4), 0x11223344);
     else if (w[1] == "cmpi16") e = x->cmp(M(2), 0x1234);
+    else if (w[1] == "ldeax") e = x->mov(x86::eax, M(4));
+    else if (w[1] == "steax") e = x->mov(M(4), x86::eax);
+    else if (w[1] == "ldrax") e = x->mov(x->zax(), M(0));
     else return "bad-op";
     return answer(e);
   }
